@@ -22,7 +22,7 @@ RULE = (
     "FilterbankBlock.dedisperse (rotation), its valid-samples variant, every row of dmt_transform (both variants), "
     "compared with x[c,t+d_c] for the delays the API reports, plus planted-pulse and DM/-DM identity consequences; "
     "files: Filterbank.dedisperse and read_dedisp_block on synthetic files compared with the same formula and with "
-    "the block paths (differential). Non-trivial = >=2 distinct non-zero delays; distinct by canonical case JSON."
+    "the block paths (differential). Input blocks carry a DM label (none / the DM about to be applied / another) and dedisperse(dm) is applied a second time to its own result (x[c,(t+2d_c) mod n]). Non-trivial = >=2 distinct non-zero delays; distinct by canonical case JSON."
 )
 ASSUMPTIONS = [
     "streamed Filterbank.dedisperse is exercised with non-negative delays only",
@@ -157,7 +157,9 @@ def strat_blocks(draw, tier):
     return {"band": b, "n": n, "span": m, "sign": draw(st.sampled_from([1, 1, -1])),
             "seed": draw(st.integers(0, 2**31 - 1)), "dmsteps": draw(st.integers(2, 6)),
             "pulse_t": draw(st.integers(0, 1000)),
-            "layout": draw(st.sampled_from(["C", "F", "F", "strided_view", "reversed_view"]))}
+            "layout": draw(st.sampled_from(["C", "F", "F", "strided_view", "reversed_view"])),
+            # the DM label the input block already carries: none, the DM about to be applied, or another one
+            "dm_label": draw(st.sampled_from(["zero", "zero", "same", "other"]))}
 
 
 def shifted(x, d, t0, length, wrap):
@@ -182,13 +184,16 @@ def check_blocks(case, ctx):
     x = rng.integers(0, 256, size=(nch, n)).astype(np.float32)
     hdr = mk_header(b, n)
     # read_block hands out transposed (F-ordered) views: the block methods must not depend on the memory layout
-    blk = FilterbankBlock(vs.relayout(x.copy(), case.get("layout", "C")), hdr)
     dm = dm_for_span(b, case["span"], case["sign"])
+    # a block may already carry a DM label (it was dedispersed before, or was read with read_dedisp_block): the
+    # rotation applied by dedisperse(dm) is that of dm on the data as they are, whatever the label says
+    label = {"zero": 0.0, "same": dm, "other": 0.5 * dm + 1.0}[case.get("dm_label", "zero")]
+    blk = FilterbankBlock(vs.relayout(x.copy(), case.get("layout", "C")), hdr, label)
     ref = b["ref"]
     d = np.asarray(hdr.get_dmdelays(dm, ref_freq=ref)).astype(np.int64).reshape(-1)
     span = max(0, int(d.max())) - min(0, int(d.min()))
-    ctxt = f"band={b} n={n} dm={dm!r} delays={d.tolist()}"
-    labels = ["dm>0" if dm > 0 else ("dm<0" if dm < 0 else "dm=0")]
+    ctxt = f"band={b} n={n} dm={dm!r} delays={d.tolist()} input_block_dm_label={label!r}"
+    labels = ["dm>0" if dm > 0 else ("dm<0" if dm < 0 else "dm=0"), "input_label_" + case.get("dm_label", "zero")]
 
     def call(name, fn):
         try:
@@ -204,6 +209,10 @@ def check_blocks(case, ctx):
         c = int(np.flatnonzero((dd.data != want).any(axis=1))[0])
         raise Violation("block.dedisperse:values", f"{ctxt}: channel {c} is not x[c,(t+{int(d[c])}) mod n]")
     require(dd.dm == dm, "block.dedisperse:dm")
+    # dedispersing the result once more at the same DM rotates once more
+    dd2 = call("block.dedisperse", lambda: dd.dedisperse(dm, ref_freq=ref))
+    if not np.array_equal(dd2.data, shifted(x, 2 * d, 0, n, wrap=True)):
+        raise Violation("block.dedisperse:second-application", f"{ctxt}: dedisperse(dm) of an already dedispersed block is not x[c,(t+2*d_c) mod n]")
     # DM then -DM is the identity
     back = call("block.dedisperse", lambda: dd.dedisperse(-dm, ref_freq=ref))
     if not np.array_equal(back.data, x):
